@@ -12,7 +12,8 @@ META = {
                   "strategy_smoother_fixedpoint.predict/apply_updates/interpolate_fwd_at_t1", "Smoother.init_posterior/finalize",
                   "MarkovSequence.evaluate_marginals/remove_filtering_distributions/rescale_cholesky",
                   "*LatentCond.revert/merge/marginalise", "solver.step/init/userfriendly_output", "ivpsolve.solve_fixed_grid",
-                  "backend.tree.tree_array_prepend/append"],
+                  "backend.tree.tree_array_prepend/append", "ProbabilisticSolver.interpolate_fwd/interpolate_fwd_at_t1 (smoothers)",
+                  "RejectionLoop.interp_beyond_t1 (chaining of checkpoints inside one step)"],
     "bounds": {"quick": "one smoother step from an ARBITRARY state incl. an arbitrary previous backward kernel (q=1,d=1; 3 ssm; "
                         "fixed-interval and fixed-point; TS0/TS1); evaluate_marginals on 2 arbitrary backward kernels; "
                         "2-step solve_fixed_grid end to end (uncalibrated and MLE)",
@@ -33,6 +34,11 @@ def cases(tier):
         out.append(f"marginals/{ssm}/fixedinterval/none/ts0/o1q1d1/damp_zero")
         out.append(f"grid2/{ssm}/fixedinterval/none/ts0/o1q1d1/damp_zero")
         out.append(f"grid2/{ssm}/fixedinterval/mle/ts0/o1q1d1/damp_zero")
+        # smoothing at checkpoints (adaptive runs): the interpolation step of both smoothers, shared with C05
+        out.append(f"interp/{ssm}/fixedpoint/none/ts0/o1q1d1/damp_zero")
+        out.append(f"interp/{ssm}/fixedinterval/none/ts0/o1q1d1/damp_zero")
+        out.append(f"interp_at/{ssm}/fixedpoint/none/ts0/o1q1d1/damp_zero")
+    out.append("chain/i/noclip/o2i2")
     if tier == "thorough":
         for ssm in cm.SSMS:
             out.append(f"step/{ssm}/fixedpoint/none/ts1/o1q1d1/damp_sym")
@@ -262,6 +268,9 @@ def _case(case_id, tier):
         make, goals = build_step(key)
     elif kind == "marginals":
         make, goals = build_marginals(key)
+    elif kind in ("interp", "interp_at"):
+        from props import C05
+        make, goals = C05.build_interp(key, at_t1=(kind == "interp_at"))
     elif kind.startswith("grid"):
         make, goals = build_grid(key, nsteps=int(kind[4:]))
     else:
@@ -272,6 +281,13 @@ def _case(case_id, tier):
 
 
 def run_case(case_id, tier="quick", seed=0, replay_dir=None, log=print):
+    if case_id.startswith("chain/"):
+        from props import C05s
+        r = C05s.run_case(case_id, tier=tier, seed=seed, replay_dir=replay_dir, log=log)
+        r["case"] = r["case"].replace("C05/", "C03/")
+        for o in r["obligations"]:
+            o["id"] = o["id"].replace("C05/", "C03/")
+        return r
     return _case(case_id, tier).run(seed=seed, log=log, replay_dir=replay_dir)
 
 
@@ -279,4 +295,7 @@ def replay(path):
     import json
     with open(path) as f:
         data = json.load(f)
+    if "error_profile" in data:
+        from props import C05s
+        return C05s.replay(path)
     return _case(data["case"].split("/", 1)[1], "quick").replay(path)
